@@ -1,4 +1,4 @@
-HOOK_COMMITS = ["3019ee6"]
+HOOK_COMMITS = ["3019ee6", "3215ccf", "d8d5a34"]
 NOTES = ("Model-based verification with explicit TLA+ specifications (see DESIGN.md). Verdicts come only from real-code "
          "behaviour: a TLC counterexample of the design model alone is exit 2, never a VIOLATION. known_findings.json lists "
          "genuine defects; fix: commits in /repo are listed there as fixed entries.")
